@@ -273,6 +273,39 @@ theorem ikstep_canon (c : String → String) (k : KSt) (op : Op) (ho : OpCanon c
     | some n => simp only [ikchangeActive, kchangeActive, hn n hnm] <;> try rfl
   | sCreateNil => rfl
 
+theorem ikchooseId_canon (c : String → String) (k : KSt) (m : Mode) (cands : List String)
+    (hm : c m.id = m.id) (h : ∀ x ∈ cands, c x = x) : ikchooseId c k m cands = kchooseId k m cands := by
+  unfold ikchooseId kchooseId
+  rw [ikgenId_canon c k cands h, hm]
+
+/-- the key written — hence the PullModes event the collection publishes — is the same for a canonical caller -/
+theorem ikwrittenKey_canon (c : String → String) (k : KSt) (op : Op) (ho : OpCanon c op) :
+    ikwrittenKey c k op = kwrittenKey k op := by
+  cases op with
+  | create m cands => simp only [ikwrittenKey, kwrittenKey, ikchooseId_canon c k m cands ho.1 ho.2]
+  | sCreate m cands => simp only [ikwrittenKey, kwrittenKey, ikchooseId_canon c k m cands ho.1 ho.2]
+  | add m =>
+    have ho' : c m.id = m.id := ho
+    simp only [ikwrittenKey, kwrittenKey, ikchooseId, ho']
+    by_cases h : m.id = "" <;> simp [h]
+  | update m mask w => have ho' : c m.id = m.id := ho; simp only [ikwrittenKey, kwrittenKey, ho']
+  | sUpdate m mask => have ho' : c m.id = m.id := ho; simp only [ikwrittenKey, kwrittenKey, ho']
+  | delete id am d => have ho' : c id = id := ho; simp only [ikwrittenKey, kwrittenKey, ho']
+  | sDelete id am => have ho' : c id = id := ho; simp only [ikwrittenKey, kwrittenKey, ho']
+  | setActive m => rfl
+  | changeActive id now => rfl
+  | sChangeActive id now => rfl
+  | findMode id => rfl
+  | clear now => rfl
+  | sClear now => rfl
+  | sCreateNil => rfl
+
+theorem ikevents_canon (c : String → String) (k : KSt) (op : Op) (ho : OpCanon c op) (hk : RecsCanon c k) :
+    ikmodeEvents c k op = kmodeEvents k op ∧ ikactiveEvents c k op = kactiveEvents k op := by
+  unfold ikmodeEvents kmodeEvents ikactiveEvents kactiveEvents
+  rw [ikwrittenKey_canon c k op ho, ikstep_canon c k op ho hk]
+  exact ⟨rfl, rfl⟩
+
 /-! ### canonical tame operations keep the records canonical; whole runs -/
 
 def LCanon (c : String → String) (l : List Rec) : Prop := ∀ e ∈ l, c e.2.id = e.2.id
